@@ -108,5 +108,15 @@ UnsatOK == /\ (last.op = "unsat" => UnsatAllowed(cnf, DecSet \cup {last.lit}))
            /\ (last.op = "none" => UnsatAllowed(cnf, {}))
 (* the deterministic L2 expectation: the model is exactly the unit-propagation closure - only  *)
 (* checked on the model itself (a deviation of the code from it is MODEL-DRIFT, not an alarm)  *)
+(* the two-watched-literal invariant (the hypothesis of WatchLemma.tla, which proves that it implies the fixpoint clause of   *)
+(* C09 for any CNF): every clause of >= 2 literals is on the lists of exactly two distinct literals of its own, and unless the *)
+(* clause is satisfied neither of them is false - under the current top model, also after pops and failed decides             *)
+WatchLits(c) == {l \in Lits : InSeq(c, IF l > 0 THEN wp[AbsL(l)] ELSE wn[AbsL(l)])}
+TwoWatch ==
+  Len(stack) >= 1 =>
+    \A c \in 1 .. Len(cnf) : Len(cnf[c]) >= 2 =>
+       LET m == stack[Len(stack)] IN
+       /\ Cardinality(WatchLits(c)) = 2 /\ WatchLits(c) \subseteq LitSet(cnf[c])
+       /\ (ClauseSat(m, cnf[c]) \/ \A l \in WatchLits(c) : LitVal(m, l) # "F")
 LevelsNested == \A i \in 1 .. (Len(stack) - 1) : AssignedLits(stack[i]) \subseteq AssignedLits(stack[i + 1])
 =============================================================================
